@@ -48,6 +48,11 @@ var c17Faults = []struct {
 	{"failing-builtin-multiline", blk(0, "(nth", "  []", "  3)")},
 	{"failed-assert", blk(0, `(assert false "zz-assert")`)},
 	{"call-non-function", blk(0, "(1 2)")},
+	// the faulty call is an operand of a threading macro, which rebuilds it (the rebuilt form has no
+	// source position of its own): last stage, middle stage, and a non-function
+	{"failing-builtin-in-pipeline", blk(1, "(->> [1 2]", "  (nth 5))")},
+	{"failing-middle-stage-of-pipeline", blk(1, "(->> [1 2]", "  (nth 5)", "  (list))")},
+	{"call-non-function-in-pipeline", blk(1, "(-> 5", "  (1))")},
 }
 
 var c17Wrappers = []struct {
@@ -93,6 +98,29 @@ var c17Deliveries = []c17delivery{
 	{"closure-returned-by-function", func(w c17block) (c17block, []c17block) {
 		return c17wrap([]string{"(def mk (fn [a]", "  (fn [b]"}, w, []string{"  )))"}), []c17block{blk(-1, "(def cl (mk 1))"), blk(-1, "(cl 2)")}
 	}},
+}
+
+// the function is defined in an earlier top-level form and called later from inside another
+// construct: the error passes through that construct on its way out and must keep pointing at the fault
+func init() {
+	for _, c := range []struct {
+		name   string
+		caller [][]string
+	}{
+		{"called-later-inside-try-finally", [][]string{{"(try", "  (ff 1)", "  (finally 2))"}}},
+		{"called-later-inside-bare-try", [][]string{{"(try", "  (ff 1))"}}},
+		{"called-later-inside-let-do", [][]string{{"(let [q 1]", "  (do 1", "    (ff q)))"}}},
+		{"called-later-by-another-function", [][]string{{"(def gg (fn [b]", "  (ff b)))"}, {"(gg", "  1)"}}},
+	} {
+		c := c
+		c17Deliveries = append(c17Deliveries, c17delivery{c.name, func(w c17block) (c17block, []c17block) {
+			var later []c17block
+			for _, l := range c.caller {
+				later = append(later, blk(-1, l...))
+			}
+			return c17wrap([]string{"(def ff (fn [a]"}, w, []string{"  ))"}), later
+		}})
+	}
 }
 
 // tier-2 deliveries: through builtins that call closures (reported separately)
